@@ -70,6 +70,11 @@ def se2_wrapped_obligation(opname):
             raise ObFail("%s does not produce a PoseSE2 (got %r)" % (opname, res))
         ang = res.data[2]
         two_pi = PI() * 2
+        import math as _math
+        from ..interp import Interp as _I
+        pv = _I.pi_value(ang) if isinstance(ang, Poly) else None
+        if pv is not None and isinstance(exp, Poly) and ang == exp and -_math.pi - 1e-12 <= pv < _math.pi:
+            return dict(op=opname, form="a constant inside [-pi, pi)")      # nothing to normalise
         d = ang - exp
         if any(d == two_pi * k for k in range(-3, 4)):
             raise ObFail("the angle produced by %s does not pass through the angle wrap (not normalised to [-pi, pi))" % opname)
